@@ -680,8 +680,12 @@ Notes:
         # update state from bestSolver
         self._AbstractEnsembleSolver__update_state()
 
-        # save the ensemble (the members write their own state to the same file)
-        self._AbstractSolver__save_state()
+        # save the ensemble whenever a member has just written its own state
+        # to the same file (the members inherit the save frequency)
+        iters = self._saveiter
+        if bool(iters) and bool(self._state) and any(not (s.generations % iters) \
+                            for s in self._allSolvers if s is not None):
+            self.SaveSolver()
         return
 
     def _process_inputs(self, kwds):
